@@ -128,7 +128,7 @@ func c14ChildMain(specJSON string) {
 			return nil
 		}
 	}
-	nd, err := cluster.NewNode(c14NodeConfig(sp.Root, sp.Port, sp.Servers, 60))
+	nd, err := startNode(c14NodeConfig(sp.Root, sp.Port, sp.Servers, 60))
 	if err != nil {
 		fmt.Fprintln(os.Stderr, "c14 child:", err)
 		os.Exit(4)
@@ -242,7 +242,7 @@ type c14Cluster struct {
 }
 
 func (cl *c14Cluster) start(i int, servers []string, shardTimeout int) (*cluster.ClusterNode, error) {
-	nd, err := cluster.NewNode(c14NodeConfig(cl.roots[i], cl.ports[i], servers, shardTimeout))
+	nd, err := startNode(c14NodeConfig(cl.roots[i], cl.ports[i], servers, shardTimeout))
 	if err != nil {
 		return nil, err
 	}
